@@ -20,6 +20,7 @@ def dispatch (j : Json) : R Json := do
   | "wf" => CodecD.handleWf j
   | "srvhs" => HsD.handleSrv j
   | "srvjudge" => HsD.handleJudge j
+  | "srvwants" => HsD.handleWants j
   | "build" => CodecD.handleBuild j
   | "ping" => pure (Json.mkObj [("pong", .bool true)])
   | _ => throw s!"unknown mode {m}"
